@@ -28,8 +28,9 @@ def build_cli():
 class Services:
     """resolver + service A (org.example.a) + service B (org.example.b), each its own process"""
 
-    def __init__(self, tag, serial=False):
-        """serial: services a and b serve one connection at a time (a single worker thread)"""
+    def __init__(self, tag, serial=False, resolver_cf=False):
+        """serial: services a and b serve one connection at a time (a single worker thread);
+        resolver_cf: the resolver spells out "continues": false in its Resolve replies"""
         os.makedirs(TMP, exist_ok=True)
         self.dir = os.path.join(TMP, "svc-%s-%d" % (tag, os.getpid()))
         os.makedirs(os.path.join(self.dir, "deep", "er"), exist_ok=True)
@@ -41,7 +42,7 @@ class Services:
         one = "--listen-one1" if serial else "--listen-one"
         self.procs = [subprocess.Popen([act, one, self.a, "a"], stderr=subprocess.DEVNULL),
                       subprocess.Popen([act, one, self.b, "b"], stderr=subprocess.DEVNULL),
-                      subprocess.Popen([act, "--resolver", self.r, "org.example.a=" + self.a, "org.example.b=" + self.b], stderr=subprocess.DEVNULL)]
+                      subprocess.Popen([act, "--resolver-cf" if resolver_cf else "--resolver", self.r, "org.example.a=" + self.a, "org.example.b=" + self.b], stderr=subprocess.DEVNULL)]
         for addr in (self.a, self.r):
             p = addr[5:]
             t0 = time.time()
@@ -58,17 +59,35 @@ class Services:
         self.procs.append(subprocess.Popen([harness_bin("h_actsrv"), "--listen-one", self.tcp, "a"], stderr=subprocess.DEVNULL))
         time.sleep(0.2)
 
+    def add_tcp6(self):
+        s = socket.socket(socket.AF_INET6)
+        s.bind(("::1", 0))
+        port = s.getsockname()[1]
+        s.close()
+        self.tcp6 = "tcp:[::1]:%d" % port
+        self.procs.append(subprocess.Popen([harness_bin("h_actsrv"), "--listen-one", self.tcp6, "a"], stderr=subprocess.DEVNULL))
+        time.sleep(0.2)
+
     def direct(self, addr, data, settle=0.15):
         """send data directly to a service, read until quiet, close"""
-        if addr.startswith("unix:@"):
-            s = socket.socket(socket.AF_UNIX)
-            s.connect("\0" + addr[6:])
-        elif addr.startswith("unix:"):
-            s = socket.socket(socket.AF_UNIX)
-            s.connect(addr[5:])
-        else:
-            h, p = addr[4:].rsplit(":", 1)
-            s = socket.create_connection((h, int(p)))
+        t0 = time.time()
+        while True:
+            try:
+                if addr.startswith("unix:@"):
+                    s = socket.socket(socket.AF_UNIX)
+                    s.connect("\0" + addr[6:])
+                elif addr.startswith("unix:"):
+                    s = socket.socket(socket.AF_UNIX)
+                    s.connect(addr[5:].split(";")[0])
+                else:
+                    h, p = addr[4:].rsplit(":", 1)
+                    s = socket.create_connection((h.strip("[]"), int(p)))
+                break
+            except (ConnectionRefusedError, FileNotFoundError):
+                # the service process may still be starting (the machine can be busy)
+                if time.time() - t0 > 5:
+                    raise
+                time.sleep(0.05)
         s.sendall(data)
         s.shutdown(socket.SHUT_WR)
         out = b""
@@ -195,6 +214,7 @@ def c18(ck):
                "payload; stdout and exit status of the real `varlink bridge` process against direct sockets; non-trivial = at least two requests; distinct by (mode, sequence, behaviour)")
     sv_par = Services("c18")
     sv_ser = Services("c18s", serial=True)
+    sv_cf = Services("c18c", resolver_cf=True)
     sv = sv_par
     try:
         def rq(iface, script, tag, **fl):
@@ -245,10 +265,11 @@ def c18(ck):
         # must be done with one target connection before it depends on an answer over the next
         serial_ids = set(list(range(5)) + [n_fixed + k for k in (0, 1, 5, 21, 42)])
         for si, seq in enumerate(seqs):
-            for mode in (modes if si < n_fixed else ["resolver"]) + (["resolver-serial"] if si in serial_ids else []):
-                sv = sv_ser if mode == "resolver-serial" else sv_par
+            # "resolver-cf": the resolver's replies spell out "continues": false (legal wire syntax of other implementations)
+            for mode in (modes if si < n_fixed else ["resolver"]) + (["resolver-serial", "resolver-cf"] if si in serial_ids else []):
+                sv = {"resolver-serial": sv_ser, "resolver-cf": sv_cf}.get(mode, sv_par)
                 label = mode
-                if mode == "resolver-serial":
+                if mode in ("resolver-serial", "resolver-cf"):
                     mode = "resolver"
                 if mode != "resolver":
                     # a direct connection reaches one service only: keep the requests for interface a (and service-info)
@@ -355,6 +376,7 @@ def c18(ck):
     finally:
         sv_par.stop()
         sv_ser.stop()
+        sv_cf.stop()
 
 
 def feed_line_default(r):
@@ -382,10 +404,11 @@ def c20(ck):
         return
     ck.rule = ("reply values of a scripted service (nested objects, arrays, non-ASCII and escape-heavy strings, integers across the i64/u64 range, floats Rust prints canonically, empty objects) x "
                "{call, call --more with 0..k continues replies, error replies with and without parameters, connection closed before the final reply} x address forms {unix path with several "
-               "slashes, abstract, tcp, resolver lookup} x --color on/off, with and without --debug; stdout parsed as a JSON value stream must equal the successful replies' parameters in order, exit status 0 iff every "
+               "slashes, unix path;mode=, tcp with a dotted quad, tcp with a bracketed IPv6 literal, resolver lookup} x --color on/off, with and without --debug; stdout parsed as a JSON value stream must equal the successful replies' parameters in order, exit status 0 iff every "
                "expected reply arrived and none was an error; non-trivial = all; distinct by case")
     sv = Services("c20")
     sv.add_tcp()
+    sv.add_tcp6()
     from svcgen import loads, canon_num
     try:
         values = [1, "s", "é\"\\\n\t", {"nested": {"a": [1, 2, {"b": None}]}}, [], {}, [[], {}], 2 ** 63 - 1, -2 ** 63, 2 ** 64 - 1, 1.5, -0.25, 1e100, True, None,
@@ -408,7 +431,7 @@ def c20(ck):
         # the final reply spells out "continues": false
         cases += [(["rf"], True, 1), (["c1", "r", "r", "c0", "rf"], True, "s"), (["rf"], False, 2)]
         # "unix-mode": the documented parameter form unix:/path;mode=0600 names the same socket
-        addrs = [("unix-deep", sv.a), ("tcp", sv.tcp), ("resolver", None), ("unix-mode", sv.a + ";mode=0600")]
+        addrs = [("unix-deep", sv.a), ("tcp", sv.tcp), ("resolver", None), ("unix-mode", sv.a + ";mode=0600"), ("tcp-ipv6", sv.tcp6)]
         n = 0
         for sc, more, v in cases:
             form, addr = addrs[n % len(addrs)]
@@ -419,7 +442,7 @@ def c20(ck):
             url = (addr + "/" + method) if addr else method
             args = ["--color", color]
             # --debug does not change what is printed on standard output or the exit status
-            if n % 5 == 2:
+            if n % 3 == 1:
                 args = ["--debug"] + args
             if addr is None:
                 args += ["--resolver", sv.r]
@@ -434,7 +457,7 @@ def c20(ck):
             err = SGR.sub("", p.stderr.decode("utf-8", "replace"))
             # what the service replies (direct socket)
             r = req(method, params, **({"more": True} if more else {}))
-            direct = sv.direct(sv.a if addr != sv.tcp else sv.tcp, enc(r))   # (the parameter form reaches the same service as sv.a)
+            direct = sv.direct(addr if addr in (sv.tcp, sv.tcp6) else sv.a, enc(r))   # (the parameter form reaches the same service as sv.a)
             replies = [loads(x.decode("utf-8")) for x in frames_of(direct)]
             exp_print, exp_ok = [], True
             complete = False
